@@ -131,3 +131,47 @@ func VerifH_C20_reslist() {
 	vCover("C20.reslist.ok", ok && split == 2)
 	vCover("C20.reslist.two-status", !ok && statusSeen == 2)
 }
+
+// A malformed response fails its own request alone: its header block (an
+// upper-case field name, a connection-specific field, a second :status or a
+// bad content-length, followed by a field that is inserted into the dynamic
+// table), whole or cut at any byte, fails the request on stream 1; the
+// response on stream 3, which refers to that entry by index, is delivered
+// intact.
+//
+//verif:harness prop=C20,C09 unwind=300 timeout=600
+func VerifH_C20_resalone() {
+	cl := vStartClient()
+	a := cl.request("GET", "/a", nil)
+	b := cl.request("GET", "/b", nil)
+	cl.sent()
+	var bad []byte
+	switch vRange(0, 3) {
+	case 0:
+		bad = []byte{0x00, 0x03, 'X', '-', 'U', 0x01, 'u'}
+	case 1:
+		bad = []byte{0x00, 0x0a, 'c', 'o', 'n', 'n', 'e', 'c', 't', 'i', 'o', 'n', 0x01, 'x'}
+	case 2:
+		bad = []byte{0x8d}
+	default:
+		bad = []byte{0x0f, 0x0d, 0x01, 'x'} // content-length: x
+	}
+	blk := append([]byte{0x88}, bad...)
+	blk = append(blk, 0x40, 0x03, 'x', '-', 't', 0x01, 'A')
+	cut := vRange(0, len(blk))
+	if cut == len(blk) {
+		cl.feed(vFrame(0x1, 0x5, 1, blk))
+	} else {
+		cl.feed(vFrame(0x1, 0x1, 1, blk[:cut]))
+		cl.feed(vFrame(0x9, 0x4, 1, blk[cut:]))
+	}
+	da, ea := a.outcome()
+	vAssert(da && ea != nil, "C20.resalone.malformed-response-fails-its-request")
+	cl.feed(vFrame(0x1, 0x5, 3, []byte{0x8d, 0xbe}))
+	db, eb := b.outcome()
+	vAssert(db && eb == nil, "C20.resalone.other-request-answered")
+	if db && eb == nil {
+		vAssert(b.res.StatusCode() == 404 && string(b.res.Header.Peek("x-t")) == "A", "C20.resalone.other-response-intact")
+	}
+	vCover("C20.resalone.cut", cut == 3 && db)
+}
